@@ -62,6 +62,10 @@ def step (s : S) : List String → S × String
   | ["methods", t] => (⟨s.cfg, parseMethods t⟩, "ok")
   | ["cfg", _robotmode, disabled, swaps, mswaps, hasopts] =>
     (⟨some ⟨"ROBOT", "admin", hasopts = "1", (if disabled = "-" then [] else disabled.splitOn "+"), swaps = "1", mswaps = "1"⟩, s.ms⟩, "ok")
+  | ["readmin", who] =>
+    (match s.cfg with
+      | some c => ⟨some { c with admin := who }, s.ms⟩
+      | none => s, "ok")
   | ["call", ident, route, fn, sender] =>
     let o := classify s ident route fn sender
     (s, if o = "bad-op" ∨ o = "bad-route" then "bad-op" else o)
